@@ -65,7 +65,7 @@ type batch struct {
 func (*prop) Cases(seed int64, tier string) []core.Case {
 	total, per := 2400, 150
 	if tier == "thorough" {
-		total, per = 24000, 300
+		total, per = 60000, 400
 	}
 	var cs []core.Case
 	for lo := 0; lo < total; lo += per {
